@@ -227,14 +227,17 @@ def setoffpath (s : State) (av : List Name) : Res :=
   | [] => ok { s with offpath := none, offpost := none }
   | p :: r => ok { s with offpath := some p, offpost := r.head? }
 
-/-- `settimeout`: the value is stored even when it is reported invalid (there is no `return` after the message) -/
+def INT_MAX : Int := 2147483647
+
+/-- `settimeout` (after repair 7f04ec7): the value is stored only when it is valid — no overflow of `long`, nothing after
+    the digits, positive, at most `INT_MAX`; otherwise the message, and the old value stays -/
 def settimeout (s : State) (av : List Name) : Res :=
   match av with
   | [] => ok s
   | a :: _ =>
     let (v, n, erange) := strtol a
-    let bad := erange || n != a.length || v ≤ 0
-    ok { s with cmdTimeout := v } (if bad then [lit "invalid timeout specified"] else [])
+    let bad := erange || n != a.length || decide (v ≤ 0) || decide (v > INT_MAX)
+    if bad then ok s [lit "invalid timeout specified"] else ok { s with cmdTimeout := v }
 
 /-- `remove_initial_plugs` -/
 def removeInitialPlugs (s : State) : State :=
